@@ -448,6 +448,7 @@ CHECKS = {
     'C03': {
         'level': 'model_checking',
         'jobs': [
+            C('link', 'TestLinkReal', 'TraceLink', env={'VERIF_LINK_PATS': 'reqrep,xreqxrep'}),   # what a REQ context's Recv() returned is still the reply later on (round-9 change C03-m16)
             T('MC_Req', 'Req_q03.cfg'),
             T('MC_Req', 'Req_1ctx.cfg', tiers=('thorough',)),
             T('MC_Req', 'Req_2ctx_retry.cfg', tiers=('thorough',)),
